@@ -28,6 +28,9 @@ func vrPlanePoint(name string) Point {
 
 func Harness_C16_exact_collinear_order_independent() {
 	vr.Domain("RUF")
+	// nonlinear real arithmetic: one back end (z3 5.1.0) decides these queries, the others do not
+	// answer within the thorough budget, so the first definitive answer decides in both tiers
+	vr.FirstAnswer()
 	vr.Stub("RobustSign", "vrstub_C16_RobustSign")
 	a0, a1, b0, b1 := vrPlanePoint("a0"), vrPlanePoint("a1"), vrPlanePoint("b0"), vrPlanePoint("b1")
 	// valid edges: endpoints neither identical nor antipodal (non-zero edge normals)
